@@ -353,52 +353,138 @@ theorem removeId_length_ne {es : List Entry} {k : Nat} (h : (removeId es k).leng
 
 theorem mem_mustOf {h : Hub} {topic : Topic} {k : Nat} :
     k ∈ mustOf h topic ↔ ∃ e ∈ h.entries, (e.topic = topic ∧ (h.chans e.chan).closed = true) ∧ e.id = k := by
-  simp [mustOf]
+  simp [mustOf, and_assoc]
 
-/-- History facts about removal.  `unsubAt` records are dead ids whose channel history holds no
-message of a later publish; the `must` list of a publish in progress names table entries of its
-topic whose receiver was gone when it took the mutex, all of them are collected into `to_prune` as
-the loop passes them, and they are dead once the prune has run. -/
-def GoneInv (s : Sys) : Prop :=
-  (∀ t k, (s.tasks t).pc = .unsubDone k true → Dead s k) ∧
-  (∀ k n, (k, n) ∈ s.unsubAt → Dead s k ∧ n ≤ s.log.length ∧
-    ∀ c m, m ∈ (s.hub.chans c).sent → m.sub = k → m.seq < n) ∧
-  (∀ t topic p seq i prune must, (s.tasks t).pc = .pubIter topic p seq i prune must →
-    (∀ k ∈ must, ∃ e ∈ s.hub.entries, e.id = k) ∧
-    (∀ j e, j < i → s.hub.entries[j]? = some e → e.id ∈ must → e.id ∈ prune) ∧
-    (∀ e ∈ s.hub.entries, e.id ∈ must → e.topic = topic ∧ (s.hub.chans e.chan).closed = true)) ∧
-  (∀ t prune must, (s.tasks t).pc = .pubWant prune must ∨ (s.tasks t).pc = .pubPruneLocked prune must →
-    ∀ k ∈ must, k ∈ prune ∧ Settled s k) ∧
-  (∀ t must, (s.tasks t).pc = .pubPruned must → ∀ k ∈ must, Dead s k) ∧
-  (∀ t must, Obs.published must ∈ (s.tasks t).out → ∀ k ∈ must, Dead s k)
+/-! ## Mutex waits only; critical sections are short -/
 
-theorem goneInv_init (caps progs) : GoneInv (init caps progs) := by
-  simp [GoneInv, init, emptyHub]
+/-- Steps the holder still has to take before it releases the mutex. -/
+def csRemaining (s : Sys) (t : Nat) : Nat :=
+  match (s.tasks t).pc with
+  | .subLocked .. => 2
+  | .subPushed .. => 1
+  | .unsubLocked .. => 2
+  | .unsubDone .. => 1
+  | .pubIter _ _ _ i _ _ => (s.hub.entries.length - i) + 1
+  | .pubPruneLocked .. => 2
+  | .pubPruned .. => 1
+  | .lenLocked => 1
+  | _ => 0
 
-set_option maxHeartbeats 4000000 in
-theorem goneInv_step {s s' : Sys} {t : Nat} (hl : LockInv s) (hid : IdInv s) (hm : MsgInv s)
-    (hi : GoneInv s) (h : step s t = some s') : GoneInv s' := by
-  obtain ⟨h1, h2, h3, h4, h5, h6⟩ := hi
-  have hD : ∀ k, Dead s k → Dead s' k := fun k hk => dead_step hk h
-  have hS : ∀ k, Settled s k → Settled s' k := fun k hk => settled_step hk h
-  have h1t := h1 t
-  have h3t := h3 t
-  have h4t := h4 t
-  have h5t := h5 t
-  have h6t := h6 t
-  have hlt := hl t
-  have hu := @holder_unique s hl
-  have hlk : ∀ c m, m ∈ (s.hub.chans c).sent → m.seq < s.log.length := fun c m hm' =>
-    getElem?_lt (hm.2.1 c m hm').2
-  have hinj := @entry_idx_inj s.hub.entries
-  have heq := @entry_eq_of_id s.hub.entries
-  obtain ⟨hnd, hlt', hpend, _⟩ := hid
-  have hrem := @removeId_length_ne s.hub.entries
-  step_cases h
-  all_goals (simp only [GoneInv, Sys.setPc, Sys.finish, Sys.setHub, Sys.setLock, sendTo_chans, sendTo_prune] at hD hS ⊢)
-  all_goals (refine ⟨?_, ?_, ?_, ?_, ?_, ?_⟩)
-  all_goals (try (grind [upd_apply, Pc.holds, recvChan_sent, recvChan_closed, closeChan, Delivers, mkMsg]))
-  all_goals trace_state
-  all_goals sorry
+/-- The only guard in `step` is the mutex (or an empty program). -/
+theorem step_none_iff (s : Sys) (t : Nat) :
+    step s t = none ↔
+      ((s.tasks t).pc = .idle ∧ (s.tasks t).prog = []) ∨
+      (s.lock.isSome = true ∧ (s.tasks t).pc.holds = false ∧
+        ¬ ((s.tasks t).pc = .idle ∧ ∃ r, (s.tasks t).prog = r ∧
+          match r with | .sub .. :: _ | .recv .. :: _ | .close .. :: _ | [] => True | _ => False)) := by
+  unfold step
+  split
+  all_goals (try split)
+  all_goals (try split)
+  all_goals (simp_all [Pc.holds])
+
+/-- Replacing every channel by anything else does not change whether a step is enabled. -/
+theorem step_enabled_indep_of_chans (s : Sys) (t : Nat) (chans' : Nat → Chan) :
+    (step s t).isSome = (step { s with hub := { s.hub with chans := chans' } } t).isSome := by
+  unfold step
+  simp only []
+  split
+  all_goals (try split)
+  all_goals (try split)
+  all_goals (try rfl)
+  all_goals (try split)
+  all_goals (try rfl)
+
+theorem holder_enabled {s : Sys} {t : Nat} (hl : LockInv s) (h : s.lock = some t) :
+    ∃ s', step s t = some s' := by
+  have hh := (hl t).mpr h
+  unfold step
+  revert hh
+  cases hpc : (s.tasks t).pc <;> simp [Pc.holds]
+  · split
+    · exact ⟨_, rfl⟩
+    · split <;> exact ⟨_, rfl⟩
+
+/-- A step of the holder either releases the mutex or strictly decreases `csRemaining`. -/
+theorem holder_progress {s s' : Sys} {t : Nat} (hl : LockInv s) (h : s.lock = some t)
+    (hst : step s t = some s') : s'.lock = none ∨ (s'.lock = some t ∧ csRemaining s' t < csRemaining s t) := by
+  have hh := (hl t).mpr h
+  step_cases hst
+  all_goals (simp_all [Pc.holds, csRemaining, Sys.setPc, Sys.finish, Sys.setHub, Sys.setLock])
+  rename_i i _ _ _ _ _ he
+  have := getElem?_lt he
+  omega
+
+theorem csRemaining_pos {s : Sys} {t : Nat} (hl : LockInv s) (h : s.lock = some t) :
+    0 < csRemaining s t := by
+  have hh := (hl t).mpr h
+  unfold csRemaining
+  revert hh
+  cases (s.tasks t).pc <;> simp [Pc.holds]
+
+/-- Whatever any other task does while `t` holds the mutex — subscriber steps included — it neither
+takes the mutex away nor changes what `t` has left to do. -/
+theorem others_cannot_delay {s s' : Sys} {t t' : Nat} (hl : LockInv s) (h : s.lock = some t)
+    (hne : t' ≠ t) (hst : step s t' = some s') :
+    s'.lock = some t ∧ s'.tasks t = s.tasks t ∧ s'.hub.entries = s.hub.entries := by
+  have hh : (s.tasks t').pc.holds = false := by
+    cases hb : (s.tasks t').pc.holds
+    · rfl
+    · have := (hl t').mp hb
+      rw [h] at this
+      exact absurd (Option.some.inj this).symm hne
+  have hne' : t ≠ t' := fun e => hne e.symm
+  step_cases hst
+  all_goals (simp_all [Pc.holds, Sys.setPc, Sys.finish, Sys.setHub, Sys.setLock, upd_apply])
+
+theorem csRemaining_congr {s s' : Sys} {t : Nat} (h1 : s'.tasks t = s.tasks t)
+    (h2 : s'.hub.entries = s.hub.entries) : csRemaining s' t = csRemaining s t := by
+  unfold csRemaining; rw [h1, h2]
+
+/-- **Bounded critical sections under every schedule.**  If `t` holds the mutex, then in any schedule
+that gives `t` at least `csRemaining s t` turns the mutex has been released after at most that many
+of `t`'s own turns, no matter which other tasks run in between and what they do. -/
+theorem cs_bounded : ∀ (sched : List Nat) {s : Sys} {t : Nat}, LockInv s → s.lock = some t →
+    csRemaining s t ≤ sched.count t →
+    ∃ pre suf, sched = pre ++ suf ∧ (exec s pre).lock ≠ some t ∧ pre.count t ≤ csRemaining s t := by
+  intro sched
+  induction sched with
+  | nil =>
+    intro s t hl h hc
+    have := csRemaining_pos hl h
+    simp at hc; omega
+  | cons x l ih =>
+    intro s t hl h hc
+    by_cases hx : x = t
+    · subst hx
+      obtain ⟨s1, hs1⟩ := holder_enabled hl h
+      have hl1 := lockInv_step hl hs1
+      rcases holder_progress hl h hs1 with hrel | ⟨hk, hlt⟩
+      · refine ⟨[x], l, rfl, ?_, ?_⟩
+        · simp [exec, stepOrStay, hs1, hrel]
+        · have := csRemaining_pos hl h; simp; omega
+      · have hc' : csRemaining s1 x ≤ l.count x := by simp at hc; omega
+        obtain ⟨pre, suf, rfl, hp1, hp2⟩ := ih hl1 hk hc'
+        refine ⟨x :: pre, suf, rfl, ?_, ?_⟩
+        · rw [exec_cons]; simpa [stepOrStay, hs1] using hp1
+        · simp; omega
+    · cases hst : step s x with
+      | none =>
+        have hc' : csRemaining s t ≤ l.count t := by
+          rw [List.count_cons_of_ne hx] at hc; exact hc
+        obtain ⟨pre, suf, rfl, hp1, hp2⟩ := ih hl h hc'
+        refine ⟨x :: pre, suf, rfl, ?_, ?_⟩
+        · rw [exec_cons]; simpa [stepOrStay, hst] using hp1
+        · rw [List.count_cons_of_ne hx]; exact hp2
+      | some s1 =>
+        obtain ⟨hk, htk, hen⟩ := others_cannot_delay hl h hx hst
+        have hl1 := lockInv_step hl hst
+        have hcs := csRemaining_congr htk hen
+        have hc' : csRemaining s1 t ≤ l.count t := by
+          rw [List.count_cons_of_ne hx] at hc; omega
+        obtain ⟨pre, suf, rfl, hp1, hp2⟩ := ih hl1 hk hc'
+        refine ⟨x :: pre, suf, rfl, ?_, ?_⟩
+        · rw [exec_cons]; simpa [stepOrStay, hst] using hp1
+        · rw [List.count_cons_of_ne hx]; omega
 
 end Srtla.Hub
